@@ -271,6 +271,43 @@ func genC05Files(c *ctx) []*mfile {
 		f.Name = fmt.Sprintf("webp-%s-%dx%d-scale%d", o.kind, o.w, o.h, o.scale)
 		out = append(out, f)
 	}
+	// files that carry a complete image of ANOTHER format inside a metadata chunk (an EXIF thumbnail is a JPEG;
+	// text chunks hold anything): the container's format and dimensions are what is reported
+	thumbJ := buildJPEG(rng, jpegOpt{w: 160, h: 120, precision: 8, ncomp: 3, nBefore: 1, body: 200}).Data
+	thumbP := buildPNG(rng, pngOpt{w: 33, h: 22, depth: 8, ctype: 2, body: 60}).Data
+	thumbW := buildWebP(rng, webpOpt{kind: "vp8l", w: 21, h: 12, body: 40}).Data
+	exif := func(inner []byte) []byte {
+		return append([]byte("Exif\x00\x00II*\x00\x08\x00\x00\x00\x00\x00"), inner...)
+	}
+	for k, inner := range [][]byte{thumbJ, thumbP, thumbW} {
+		tag := []string{"jpeg", "png", "webp"}[k]
+		// WebP (VP8X): an EXIF chunk before the image data, and one after it
+		for _, pos := range []string{"before", "after"} {
+			wf := buildWebP(rng, webpOpt{kind: "vp8x", w: 64 + uint32(k), h: 48, body: 100})
+			chunk := riffChunk("EXIF", exif(inner))
+			at := 12 + 18 // RIFF header + VP8X chunk
+			if pos == "after" {
+				at = len(wf.Data)
+			}
+			d := append(append(append([]byte{}, wf.Data[:at]...), chunk...), wf.Data[at:]...)
+			n := uint32(len(d) - 8)
+			d[4], d[5], d[6], d[7] = byte(n), byte(n>>8), byte(n>>16), byte(n>>24)
+			d[20] |= 0x08 // EXIF flag
+			wf.Data, wf.Decodable = d, false
+			wf.Name = fmt.Sprintf("webp-vp8x-with-exif-%s-thumbnail-%s-image", tag, pos)
+			out = append(out, wf)
+		}
+		// JPEG: an APP1 Exif segment right after SOI
+		jf := buildJPEG(rng, jpegOpt{w: 300 + uint16(k), h: 200, precision: 8, ncomp: 3, nBefore: 1, nAfter: 1, body: 80})
+		jf.Data = append(append(append([]byte{}, jf.Data[:2]...), jpegSeg(0xe1, exif(inner))...), jf.Data[2:]...)
+		jf.Name = "jpeg-with-exif-" + tag + "-thumbnail"
+		out = append(out, jf)
+		// PNG: an eXIf chunk right after IHDR
+		pf := buildPNG(rng, pngOpt{w: 90 + uint32(k), h: 70, depth: 8, ctype: 2, nAnc: 1, body: 50, smallAnc: true})
+		pf.Data = append(append(append([]byte{}, pf.Data[:33]...), pngChunk("eXIf", exif(inner))...), pf.Data[33:]...)
+		pf.Name = "png-with-exif-" + tag + "-thumbnail"
+		out = append(out, pf)
+	}
 	return out
 }
 
@@ -1036,7 +1073,7 @@ func init() {
 		c05 := genC05Files(c)
 		rng.Shuffle(len(c05), func(i, j int) { c05[i], c05[j] = c05[j], c05[i] })
 		for i, f := range c05 {
-			if i < c.n(150, 2000) {
+			if i < c.n(150, 2000) || strings.Contains(f.Name, "thumbnail") {
 				inputs = append(inputs, inp{f.Name, f.Data})
 			}
 		}
